@@ -46,6 +46,8 @@ def set_job_state(sim, job, state, fail_kind="exit"):
         job.fail_kind = fail_kind
     elif state == "cancelled":
         job.state = simsched.CANCELLED
+        # cancelled by its owner (sacct: "CANCELLED by <uid>") or by the cluster (bare "CANCELLED")
+        job.cancel_by = "user" if job.id.isdigit() and int(job.id) % 2 else None
     elif state == "unknown":
         job.state = simsched.DONE
         job.in_queue = False
